@@ -24,7 +24,8 @@ RULE = (
     "A2C, PPO, 5 tabular learners, CMA-ES, SMT, active-MT, UTS) x training seed x 2 scripts (each with a termination and a "
     "truncation inside the executed horizon, learning enabled after a warm-up of 2-4 steps) x perturbation pair; "
     "in-process pair = (global random/np.random seeded 101, real clock) vs (seeded 202 and advanced, time.time shifted "
-    "+1000003.217 s, warm jit caches); cross-interpreter pair = separate /venv/bin/python processes with PYTHONHASHSEED 0 vs "
+    "+1000003.217 s, warm jit caches, and for continuous-action routines a different training run with other action bounds "
+    "executed in between); cross-interpreter pair = separate /venv/bin/python processes with PYTHONHASHSEED 0 vs "
     "7 / 12345 (/ 10 in the thorough tier), global RNG seeds 11/22/33/44 and clock shifts 0/+1000003.217/-1000003.217/+1045296.789 s. One evaluation = one comparison of two "
     "digests (bytes of every handed-in and returned module/optimizer leaf, buffer arrays up to current_len, priorities, "
     "returned counters/tables, the MemoryLogger call sequence with (episode, step) and without wall-clock, the "
@@ -46,6 +47,10 @@ K_CLOCK = "depends-on-wall-clock"
 K_HASH = "depends-on-hash-seed"
 K_REPEAT = "not-repeatable-under-identical-controlled-conditions"
 K_UNATTR = "differs-between-runs-unattributed"
+K_HISTORY = "depends-on-earlier-runs-in-the-same-process"
+# routines acting in a continuous Box: before run B a *different* training (same routine, other action bounds)
+# is executed in the same process, so state kept across calls (module-level caches) becomes visible
+HISTORY = {"ddpg", "td3", "td3_lap", "sac", "td7", "mrq", "pets", "mrq@ls0"}
 
 P_A = dict(glob=101, shift=0.0)
 SHIFT = 1_000_003.217  # ~1e6 s, deliberately not a round number (a round shift vanishes under `int(t * 1000) % 100000`)
@@ -70,7 +75,7 @@ def _seeds(tier, vs):
 def items(tier, seed):
     out = []
     seeds = _seeds(tier, seed)
-    cost = {"mrq": 9, "uts": 8, "smt": 5, "active_mt": 5, "pets": 5, "td7": 5, "sac": 4}
+    cost = {"mrq": 9, "mrq@ls0": 9, "uts": 8, "smt": 5, "active_mt": 5, "active_mt@ties": 5, "pets": 5, "td7": 5, "sac": 4}
     if tier == "quick":
         for fam, names in D.FAMILIES.items():
             jobs = [[n, 0, seeds[0], 10 * seed + 5] for n in names]
@@ -150,6 +155,14 @@ def attribute_inproc(name, sid, seed, net_seed):
         kinds.append(K_REPEAT)
         info[K_REPEAT] = _diff(base, again)
         return kinds, info
+    if name in HISTORY:
+        with D.perturbed(**dict(P_A, vclock=True)):
+            D.run_digest(name, sid, seed + 77, net_seed, alt_bounds=True)
+        h = _run_in(name, sid, seed, net_seed, dict(P_A, vclock=True))
+        if _diff(base, h):
+            kinds.append(K_HISTORY)
+            info[K_HISTORY] = _diff(base, h)
+            return kinds, info
     g = _run_in(name, sid, seed, net_seed, dict(glob=P_B["glob"], shift=P_A["shift"], vclock=True))
     if _diff(base, g):
         kinds.append(K_GLOB)
@@ -188,6 +201,10 @@ def work_inproc(item, col):
         col.outcome("items_where_seed_has_no_influence")
         col.append("vacuous_items", item["name"])
     for s in item["seeds"]:
+        if name in HISTORY:
+            with D.perturbed(**P_B):
+                D.run_digest(name, sid, s + 77, net_seed, alt_bounds=True)  # process history: another training, other bounds
+            col.outcome("pairs_with_a_different_training_run_in_between")
         b = _run_in(name, sid, s, net_seed, P_B)
         a = A[s]
         _note_run(col, a, seen)
@@ -220,6 +237,10 @@ def attribute_cross(job, hs_other, pert_other):
     kinds, info = [], {}
     if _diff(base[k], again[k]):
         return [K_REPEAT], {K_REPEAT: _diff(base[k], again[k])}
+    if D.VARIANTS.get(job[0], job[0]) in D.POLLUTABLE:
+        hp = run_sub([job], "0", dict(p0, vclock=True, pollute=True))["results"]
+        if _diff(base[k], hp[k]):
+            return [K_HISTORY], {K_HISTORY: _diff(base[k], hp[k])}
     h = run_sub([job], hs_other, dict(p0, vclock=True))["results"]
     if _diff(base[k], h[k]):
         kinds.append(K_HASH)
@@ -240,8 +261,11 @@ def attribute_cross(job, hs_other, pert_other):
 def work_cross(item, col):
     jobs = item["jobs"]
     runs = []
-    for hs, pert in CROSS[: item["nhash"]]:
-        runs.append((hs, pert, run_sub(jobs, hs, pert)))
+    for i, (hs, pert) in enumerate(CROSS[: item["nhash"]]):
+        # every second interpreter executes a different training run (other action bounds) before each job
+        runs.append((hs, pert, run_sub(jobs, hs, dict(pert, pollute=bool(i % 2)))))
+        if i % 2:
+            col.outcome("interpreters_with_a_different_training_run_before_each_job")
     col.outcome("interpreters_started", len(runs))
     o0 = runs[0][2]["info"]["probe_orders"]
     for _hs, _p, out in runs[1:]:
